@@ -43,6 +43,7 @@ def _model_worker(batch):
                     e["why"] = r[1] if len(r) > 1 else ""
                 view.append(e)
             out.append({"view": view, "steps_used": ip.steps, "loads": ip.loads})
+            ip.shutdown()
         except Exception as ex:  # a model crash is a harness problem, never a verdict
             out.append({"crash": "%s: %s" % (type(ex).__name__, ex)})
     return out
